@@ -661,10 +661,17 @@ def paginated_case(draw, tier):
         rel = "gte"
         pages = n_pages
     with_aggs = _one_in(draw, 6)
+    # a search body that also carries a large terms aggregation: tens of KiB of JSON follow the hits (Elasticsearch writes aggregations
+    # after them), far more than any read-ahead or tail window
+    big_tail = _one_in(draw, 8)
     resps = []
     for k in range(n_pages):
         hits = hit_list(draw, adv, True, True, 1, size)
         aggs = aggregations(draw, adv, shuffle) if with_aggs else None
+        if big_tail:
+            aggs = dict(aggs or {})
+            aggs["by_term"] = {"doc_count_error_upper_bound": 0, "sum_other_doc_count": 0,
+                               "buckets": [{"key": "term-%05d" % i, "doc_count": 100000 - i} for i in range(600)]}
         resps.append(search_response(draw, adv, shuffle, ascii_, hits, style, value, rel, pit_id=draw(_B64) if pit else None, aggs=aggs))
     return {"kind": "paginated", "resp": resps, "size": size, "pages": pages, "pit": pit, "hits_total": draw(_sf(None, None, 7))}
 
